@@ -272,6 +272,60 @@ def h_adc(H):
     S.explore(body)
 
 
+def _default_layout_cases():
+    """metadata without a site map: geometry_from_meta falls back on the canonical layout of the probe generation. Finite domain: generation x sort x nc"""
+    bad = []
+    for vkey, (fields, major) in VERSIONS.items():
+        base = dict(fields, typeThis="imec")
+        want = neuropixel.trace_header(version=major)
+        for sort in (True, False):
+            try:
+                th, inds = spikeglx.geometry_from_meta(dict(base), return_index=True, sort=sort)
+                th2 = spikeglx.geometry_from_meta(dict(base), sort=sort)
+            except Exception as e:
+                bad.append({"probe": vkey, "sort": sort, "raised": repr(e)[:120]})
+                continue
+            inds = np.asarray(inds)
+            n = want["x"].size
+            ok_perm = inds.shape == (n,) and np.array_equal(np.sort(inds), np.arange(n))
+            keys = [k for k in want if k != "flag"]
+            ok_joint = ok_perm and all(k in th and np.array_equal(np.asarray(th[k]), np.asarray(want[k])[inds]) for k in keys)
+            ok_same = all(k in th2 and np.array_equal(np.asarray(th2[k]), np.asarray(th[k])) for k in keys)
+            if not (ok_perm and ok_joint and ok_same):
+                first = next((k for k in keys if k not in th or not ok_perm or not np.array_equal(np.asarray(th[k]), np.asarray(want[k])[inds])), None)
+                bad.append({"probe": vkey, "sort": sort, "index_is_a_permutation": bool(ok_perm), "entry_i_describes_channel_index_i": bool(ok_joint), "first_key_out_of_step": first,
+                            "with_and_without_index_agree": bool(ok_same)})
+    # no probe generation in the record either: nothing to return
+    try:
+        r = spikeglx.geometry_from_meta({"typeThis": "nidq"}, return_index=True)
+        if r != (None, None) or spikeglx.geometry_from_meta({"typeThis": "nidq"}) is not None:
+            bad.append({"probe": None, "returned": repr(r)[:80]})
+    except Exception as e:
+        bad.append({"probe": None, "raised": repr(e)[:120]})
+    return bad
+
+
+@harness(PROPERTY, "default_layout", functions=["spikeglx:geometry_from_meta (branch taken when the record has no site map)"],
+         replay=lambda vals, oid: (lambda b: {"failed": bool(b), "cases": b[:4]})(_default_layout_cases()),
+         clause="jointly permuted description of the sites, also when the metadata carries no site map: entry i of every key describes the channel the returned index names at i "
+                "(canonical layout of the probe generation, any consistent order); complete: the branch's whole domain (probe generation x sort flag) is enumerated")
+def h_default_layout(H):
+    """closed computation over a finite domain: decided by exhaustive evaluation of the real function, stated as obligations so that C01 (which stores the index as the reader's
+    channel order) re-checks it"""
+    S = H.session("default_layout")
+
+    def body(it):
+        it.session.note_function(spikeglx.geometry_from_meta)
+        bad = _default_layout_cases()
+        for vkey in list(VERSIONS) + [None]:
+            for sort in ((True, False) if vkey else (None,)):
+                mine = [b for b in bad if b.get("probe") == vkey and b.get("sort", None) == sort]
+                it.ctx.oblige(f"default_layout.{vkey}.sort{sort}", z3.BoolVal(not mine), "post",
+                              "every key of the returned header == the canonical header taken at the returned index; the index is a permutation; same header with and without return_index"
+                              + (": " + repr(mine[0])[:200] if mine else ""))
+    S.explore(body)
+
+
 @bounded(PROPERTY, "native_geometry_and_tables", bound="EXHAUSTIVE: adc_shifts for versions {1,2,2.4,NPultra} x nc in 1..384, dense_layout for versions {1,2,2.1,2.4,NPultra} x {1,4} shanks against a per-channel description, trace_header for 5 configurations; "
          "BOUNDED: 6 (thorough 60) random site selections per probe family in both encodings, sorted/unsorted, split shanks, derived twice; shipped new/old encoding pair; "
          "channel subset 10:105 (known finding)",
